@@ -2,6 +2,7 @@
 import collections
 import re
 from engine import *
+import linforms
 import provenance
 import guards
 import arith
@@ -707,3 +708,4 @@ def r20n(F):
 
 RULES.append(('20.n', 'listener adapters (the (T, U) pair, Deref, the block-sync wrappers) forward connections and disconnections to the same set of members (sibling methods cross-checked)', r20n))
 RULES.append(('20.N', 'arithmetic census: per reviewed function the set of operation kinds (group: add/sub, mul, div, rem, shift, bit, min, max, div_ceil ...; flavour: plain / checked / saturating / wrapping) keeps its kinds: no reviewed function lost or gained a kind of arithmetic altogether - a rounding direction (`/` for div_ceil), saturating for checked, min for max (rules/arith.py; counts and value arithmetic itself are not judged)', lambda F: arith.for_property(F, 'C20', '20.N')))
+RULES.append(('20.K', 'constant census of linear forms: every comparison (normalised to sum >= K over name-free atoms, a comparison and its negation being one form) and every maximal arithmetic expression of a reviewed function keeps its coefficients and its constant - a dropped or added `+ 1` / `- 1`, `<` for `<=` inside a computed bound, a scale factor applied twice or not at all, swapped operands of a comparison (rules/linforms.py; shapes that appear or disappear are not judged, the guard / arithmetic censuses judge those)', lambda F: linforms.for_property(F, 'C20', '20.K')))
